@@ -302,6 +302,9 @@ class Engine(ExprMixin, CallMixin, SpecMixin, StmtMixin):
             self.requires_pc = list(st.pc)
             outs = self.exec_with_cuts(c, fn, st)
             res.paths = len(outs)
+            # hypotheses at the exits (normal exits first): used by the reachability guard (a function all of whose exits have
+            # contradictory hypotheses proves everything vacuously)
+            self.exit_pcs = [list(o.pc) for o in sorted(outs, key=lambda o: o.flow == "raise")]
             for o in outs:
                 self.exit_obligations(c, fn, o)
             res.obligations = self.obls
@@ -672,3 +675,19 @@ def check_satisfiable(hyps, timeout_ms=3000):
             return "unsat"
         return "not-refuted"  # the prover cannot derive False from the preconditions
     return r
+
+
+def exits_reachable(facts, exit_pcs, timeout_ms=1500, max_paths=6):
+    """vacuity guard at the exits: 'unsat' only if the solver refutes the hypotheses of every exit path tried (then every
+    postcondition holds vacuously); 'sat' / 'not-refuted' as soon as one exit path is not refuted"""
+    if not exit_pcs:
+        return "no-exit"
+    for pc in exit_pcs[:max_paths]:
+        s = z3.Solver()
+        s.set("timeout", timeout_ms)
+        s.add(*facts)
+        s.add(*pc)
+        r = str(s.check())
+        if r != "unsat":
+            return "sat" if r == "sat" else "not-refuted"
+    return "unsat" if len(exit_pcs) <= max_paths else "not-refuted"
